@@ -32,6 +32,10 @@ QUERIES = [  # (name, sql, mode choices, tables)
     ("counting_having", "SELECT g, count(*) AS c, sum(w) AS s FROM stream GROUP BY g, CountingWindow(2) HAVING c > 1", ["emit"], None),
     ("counting_having_order", "SELECT g, count(*) AS c, max(w) AS s FROM stream GROUP BY g, CountingWindow(2) HAVING max(w) >= 0 ORDER BY s DESC LIMIT 5", ["emit"], None),
     ("counting_distinct", "SELECT DISTINCT g, count(*) AS c FROM stream GROUP BY g, CountingWindow(2)", ["emit"], None),
+    # aggregate arguments that are expressions over the row (nothing computed for them may be left in the caller's map)
+    ("agg_expr_counting", "SELECT g, sum(v * 2) AS s, avg(v + w) AS a, max(coalesce(v, w)) AS m FROM stream GROUP BY g, CountingWindow(2)", ["emit"], None),
+    ("agg_expr_tumbling", "SELECT g, sum(v * 2) AS s, min(w - v) AS m FROM stream GROUP BY g, TumblingWindow('10s') WITH (TIMESTAMP='ts', TIMEUNIT='ms')", ["emit"], None),
+    ("agg_expr_global", "SELECT g, sum(v + w) AS s FROM stream GROUP BY g, GLOBAL WINDOW TRIGGER WHEN COUNT(*) >= 2", ["emit"], None),
     ("unnest", "SELECT id, unnest(readings) AS r FROM stream", ["emit"], None),
     ("case", "SELECT id, CASE WHEN v > 1 THEN 'hi' ELSE 'lo' END AS lvl FROM stream", ["emit", "sync"], None),
     ("global", "SELECT g, count(*) AS c FROM stream GROUP BY g, GLOBAL WINDOW TRIGGER WHEN COUNT(*) >= 2", ["emit"], None),
@@ -46,6 +50,7 @@ PAIRS = [  # same expression text with different column types, same SQL / differ
     ("SELECT id, x + y AS r FROM stream", "num", "SELECT id, x + y AS r FROM stream", "str"),
     ("SELECT sum(x + y) AS s, count(*) AS c FROM stream GROUP BY CountingWindow(2)", "num", "SELECT last_value(x + y) AS s, count(*) AS c FROM stream GROUP BY CountingWindow(2)", "str"),
     ("SELECT sum(x + y) AS s, count(*) AS c FROM stream GROUP BY CountingWindow(2)", "num", "SELECT sum(x + y) AS s, count(*) AS c FROM stream GROUP BY CountingWindow(2)", "str"),
+    ("SELECT sum(x * 2) AS s, count(*) AS c FROM stream GROUP BY CountingWindow(2)", "num", "SELECT sum(x * 3) AS s, count(*) AS c FROM stream GROUP BY CountingWindow(2)", "num"),
     ("SELECT id, upper(x) AS u FROM stream", "str", "SELECT id, upper(x) AS u FROM stream", "num"),
     ("SELECT id FROM stream WHERE x > 1", "num", "SELECT id FROM stream WHERE x > 1", "str"),
     ("SELECT id, lag(x) AS p FROM stream", "num", "SELECT id, lag(x) AS p FROM stream", "str"),
